@@ -13,8 +13,15 @@
 From Coq Require Import List NArith Bool Arith.
 Import ListNotations.
 
+(** what a callback / errback attached to a notifyFinish Deferred does, synchronously, when the Deferred fires *)
+Inductive ract :=
+| RFinish      (* request.finish() *)
+| RWrite       (* request.write(...) *)
+| RNotify      (* request.notifyFinish() (no reaction attached to the new Deferred) *)
+| RLose.       (* request.transport.loseConnection() — an effect only on a transport that reports the loss at once *)
+
 Inductive act :=
-| ANotify      (* request.notifyFinish() *)
+| ANotify (re : list ract)   (* request.notifyFinish(), with the reaction attached to the Deferred *)
 | AWrite       (* request.write(b"<i.j>") *)
 | AFinish      (* request.finish() *)
 | AReg         (* request.registerProducer(push producer, True) *)
@@ -36,6 +43,7 @@ Inductive ev :=
 | ENotify (i d : nat)                (* notifyFinish() on request i returned its d-th Deferred *)
 | EFired (i d : nat) (ok : bool)     (* that Deferred fired: callback(None) / errback(reason) *)
 | ELost (i : nat)                    (* Request.connectionLost called on request i *)
+| EGone                              (* HTTPChannel.connectionLost called: the connection is gone *)
 | ENetPause | ENetResume             (* transport.pauseProducing() / resumeProducing(): reading paused / resumed *)
 | EProdPause (i : nat) | EProdResume (i : nat)    (* the request's push producer paused / resumed *)
 | EClose                             (* transport.loseConnection() *)
@@ -46,7 +54,7 @@ Record rq := mkRq {
   r_started : bool;        (* startedWriting *)
   r_finished : bool;       (* finished *)
   r_disc : bool;           (* _disconnected *)
-  r_pending : list nat;    (* notifications: Deferreds not yet fired *)
+  r_pending : list (nat * list ract);    (* notifications: Deferreds not yet fired, with their reactions *)
   r_ndef : nat;            (* how many Deferreds were handed out *)
   r_nw : nat;              (* body writes so far *)
   r_prod : bool }.         (* producer registered on the request *)
@@ -78,6 +86,7 @@ Fixpoint upd {A} (l : list A) (i : nat) (x : A) : list A :=
 
 Section WithStream.
   Variable eager : N.                 (* _optimisticEagerReadSize *)
+  Variable sync : bool.               (* the transport reports a loss synchronously from loseConnection() *)
   Variable reqs : list reqspec.       (* the whole request stream *)
 
   Definition spec_of (i : nat) : reqspec := nth i reqs (mkQ 0 true []).
@@ -96,8 +105,12 @@ Section WithStream.
     let e1 := if s_waiting s then [] else [ENetResume] in
     if q_persist (spec_of i)
     then (mkSt (s_rq s) false false (s_recv s) (s_cons s) (s_waiting s) (s_cprod s) (s_closing s) (s_lost s), e1)
-    else (mkSt (s_rq s) (s_handling s) false (s_recv s) (s_cons s) (s_waiting s) (s_cprod s) true (s_lost s),
-          e1 ++ [EClose]).
+    else if sync && negb (s_lost s)
+         then (* loseConnection() -> connectionLost at once; channel.requests is empty by now *)
+              (mkSt (s_rq s) (s_handling s) false (s_recv s) (s_cons s) (s_waiting s) (s_cprod s) true true,
+               e1 ++ [EClose; EGone])
+         else (mkSt (s_rq s) (s_handling s) false (s_recv s) (s_cons s) (s_waiting s) (s_cprod s) true (s_lost s),
+               e1 ++ [EClose]).
 
   (** Request.finish up to and including channel.requestDone: head if needed, last chunk, _cleanup's producer
       unregistration, requestDone *)
@@ -109,13 +122,96 @@ Section WithStream.
     let (s2, e2) := request_done i s1 in
     (s2, e1 ++ [EEnd i] ++ e2).
 
+  Definition set_pending (i : nat) (l : list (nat * list ract)) (s : st) : st :=
+    match nth_error (s_rq s) i with
+    | None => s
+    | Some r => set_rq s (upd (s_rq s) i (mkRq (r_started r) (r_finished r) (r_disc r) l (r_ndef r) (r_nw r) (r_prod r)))
+    end.
+
+  (** notifyFinish() on a request that is finished or disconnected (repaired): the new Deferred fires at once *)
+  Definition notify_now (i : nat) (s : st) : st * list ev :=
+    match nth_error (s_rq s) i with
+    | None => (s, [])
+    | Some r =>
+        (set_rq s (upd (s_rq s) i (mkRq (r_started r) (r_finished r) (r_disc r) (r_pending r) (S (r_ndef r)) (r_nw r) (r_prod r))),
+         [ENotify i (r_ndef r); EFired i (r_ndef r) (negb (r_disc r))])
+    end.
+
+  Definition mark_closing (s : st) : st :=
+    mkSt (s_rq s) (s_handling s) (s_inchan s) (s_recv s) (s_cons s) (s_waiting s) (s_cprod s) true (s_lost s).
+
+  (** one reaction step on request i, which has finished or lost its connection; the connection is not dropped here *)
+  Definition react0 (i : nat) (s : st) (a : ract) : st * list ev :=
+    match nth_error (s_rq s) i with
+    | None => (s, [])
+    | Some r =>
+        match a with
+        | RFinish => (s, if r_disc r then [ERaise] else [])        (* finished: a warning only *)
+        | RWrite => (s, if r_finished r then [ERaise] else [])     (* disconnected: ignored *)
+        | RNotify => notify_now i s
+        | RLose => if sync then (mark_closing s, [EClose]) else (s, [])
+        end
+    end.
+
+  (** a reaction = its steps in turn; for d in notifications: fire d, whose reaction runs at once
+      (parametrised by the step function: reactions that run while the connection is being torn down cannot tear it
+      down again) *)
+  Section Firing.
+    Variable rf : nat -> st -> ract -> st * list ev.
+
+    Fixpoint run_react (i : nat) (re : list ract) (s : st) : st * list ev :=
+      match re with
+      | [] => (s, [])
+      | a :: r => let (s1, e1) := rf i s a in
+                  let (s2, e2) := run_react i r s1 in (s2, e1 ++ e2)
+      end.
+
+    Fixpoint fire_list (i : nat) (ok : bool) (l : list (nat * list ract)) (s : st) : st * list ev :=
+      match l with
+      | [] => (s, [])
+      | (d, re) :: l' =>
+          let s1 := set_pending i l' s in
+          let (s2, e2) := run_react i re s1 in
+          let (s3, e3) := fire_list i ok l' s2 in
+          (s3, EFired i d ok :: e2 ++ e3)
+      end.
+  End Firing.
+
+  Definition fire0 := fire_list react0.
+
+  (** HTTPChannel.connectionLost: fan out to the request in channel.requests (Request.connectionLost: mark it
+      disconnected, then errback its Deferreds) *)
+  Definition lose0 (s : st) : st * list ev :=
+    if s_lost s then (s, [])       (* connectionLost is delivered once *)
+    else
+      let s1 := mkSt (s_rq s) (s_handling s) (s_inchan s) (s_recv s) (s_cons s) (s_waiting s) (s_cprod s)
+                     (s_closing s) true in
+      if s_inchan s
+      then let i := pred (length (s_rq s)) in
+           match nth_error (s_rq s) i with
+           | None => (s1, [EGone])
+           | Some r =>
+               let s2 := set_rq s1 (upd (s_rq s) i (mkRq (r_started r) (r_finished r) true (r_pending r) (r_ndef r)
+                                                         (r_nw r) (r_prod r))) in
+               let (s3, e3) := fire0 i false (r_pending r) s2 in (s3, EGone :: ELost i :: e3)
+           end
+      else (s1, [EGone]).
+
+  (** a reaction step that may drop the connection *)
+  Definition react1 (i : nat) (s : st) (a : ract) : st * list ev :=
+    match a with
+    | RLose => if sync then let (s1, e1) := lose0 (mark_closing s) in (s1, EClose :: e1) else (s, [])
+    | _ => react0 i s a
+    end.
+
+  Definition run_react1 := run_react react1.
+  Definition fire1 := fire_list react1.
+
   (** the end of _cleanup: for d in self.notifications: d.callback(None) *)
   Definition fire (i : nat) (ok : bool) (s : st) : st * list ev :=
     match nth_error (s_rq s) i with
     | None => (s, [])
-    | Some r =>
-        (set_rq s (upd (s_rq s) i (mkRq (r_started r) (r_finished r) (r_disc r) [] (r_ndef r) (r_nw r) (r_prod r))),
-         map (fun d => EFired i d ok) (r_pending r))
+    | Some r => fire1 i ok (r_pending r) s
     end.
 
   (** everything except finish; [None] = this is a finish that goes through *)
@@ -124,14 +220,13 @@ Section WithStream.
     | None => Some (s, [])
     | Some r =>
         match a with
-        | ANotify =>
+        | ANotify re =>
             (* repaired (fixes/C21-notifyfinish-after-completion.patch): a Deferred asked for after the request
-               completed fires at once instead of never *)
+               completed fires at once instead of never; its reaction runs at once, too *)
             if r_disc r || r_finished r
-            then Some (set_rq s (upd (s_rq s) i (mkRq (r_started r) (r_finished r) (r_disc r) (r_pending r)
-                                                      (S (r_ndef r)) (r_nw r) (r_prod r))),
-                       [ENotify i (r_ndef r); EFired i (r_ndef r) (negb (r_disc r))])
-            else Some (set_rq s (upd (s_rq s) i (mkRq (r_started r) (r_finished r) (r_disc r) (r_pending r ++ [r_ndef r])
+            then let (s1, e1) := notify_now i s in
+                 let (s2, e2) := run_react1 i re s1 in Some (s2, e1 ++ e2)
+            else Some (set_rq s (upd (s_rq s) i (mkRq (r_started r) (r_finished r) (r_disc r) (r_pending r ++ [(r_ndef r, re)])
                                                       (S (r_ndef r)) (r_nw r) (r_prod r))),
                        [ENotify i (r_ndef r)])
         | AWrite =>
@@ -213,27 +308,16 @@ Section WithStream.
           then (s1, if (0 <? n)%N then eager_check s1 else [])
           else drain (remaining s1) s1
     | TPause =>
+        if s_lost s then (s, []) else
         let cur := pred (length (s_rq s)) in
         (mkSt (s_rq s) (s_handling s) (s_inchan s) (s_recv s) (s_cons s) true (s_cprod s) (s_closing s) (s_lost s),
          (if s_cprod s then [EProdPause cur] else []) ++ (if s_handling s then [] else [ENetPause]))
     | TResume =>
+        if s_lost s then (s, []) else
         let cur := pred (length (s_rq s)) in
         (mkSt (s_rq s) (s_handling s) (s_inchan s) (s_recv s) (s_cons s) false (s_cprod s) (s_closing s) (s_lost s),
          (if s_cprod s then [EProdResume cur] else []) ++ (if s_handling s then [] else [ENetResume]))
-    | Lose =>
-        if s_lost s then (s, []) else      (* connectionLost is delivered once *)
-        let s1 := mkSt (s_rq s) (s_handling s) (s_inchan s) (s_recv s) (s_cons s) (s_waiting s) (s_cprod s)
-                       (s_closing s) true in
-        if s_inchan s
-        then let i := pred (length (s_rq s)) in
-             match nth_error (s_rq s) i with
-             | None => (s1, [])
-             | Some r =>
-                 let s2 := set_rq s1 (upd (s_rq s) i (mkRq (r_started r) (r_finished r) true (r_pending r) (r_ndef r)
-                                                           (r_nw r) (r_prod r))) in
-                 let (s3, e3) := fire i false s2 in (s3, ELost i :: e3)
-             end
-        else (s1, [])
+    | Lose => lose0 s
     | App i a =>
         match app_simple i a s with
         | Some r => r
@@ -274,9 +358,10 @@ Record mon := mkMon {
   m_head : bool;             (* its head is on the wire *)
   m_dead : bool;             (* it lost its connection *)
   m_nw : nat;                (* its body writes so far *)
-  m_paused : bool }.         (* reading from the transport is paused *)
+  m_paused : bool;           (* reading from the transport is paused *)
+  m_gone : bool }.           (* the connection is gone *)
 
-Definition mon0 : mon := mkMon [] None false false 0 false.
+Definition mon0 : mon := mkMon [] None false false 0 false false.
 
 Fixpoint remove_first (d : nat) (l : list nat) : list nat :=
   match l with
@@ -287,54 +372,58 @@ Fixpoint remove_first (d : nat) (l : list nat) : list nat :=
 Definition is_open (m : mon) (i : nat) : bool :=
   match m_open m with Some j => Nat.eqb i j | None => false end.
 
+Definition with_rq (m : mon) (l : list mreq) : mon :=
+  mkMon l (m_open m) (m_head m) (m_dead m) (m_nw m) (m_paused m) (m_gone m).
+
 Definition mon_step (m : mon) (e : ev) : option mon :=
   match e with
   | EProcess i =>
       match m_open m with
-      | None => if Nat.eqb i (length (m_rq m))
-                then Some (mkMon (m_rq m ++ [mkM false false 0 []]) (Some i) false false 0 (m_paused m))
+      | None => if Nat.eqb i (length (m_rq m)) && negb (m_gone m)
+                then Some (mkMon (m_rq m ++ [mkM false false 0 []]) (Some i) false false 0 (m_paused m) (m_gone m))
                 else None
       | Some _ => None
       end
   | EHead i =>
       if is_open m i && negb (m_head m) && negb (m_dead m)
-      then Some (mkMon (m_rq m) (m_open m) true (m_dead m) (m_nw m) (m_paused m)) else None
+      then Some (mkMon (m_rq m) (m_open m) true (m_dead m) (m_nw m) (m_paused m) (m_gone m)) else None
   | EWrite i j =>
       if is_open m i && m_head m && negb (m_dead m) && Nat.eqb j (m_nw m)
-      then Some (mkMon (m_rq m) (m_open m) (m_head m) (m_dead m) (S (m_nw m)) (m_paused m)) else None
+      then Some (mkMon (m_rq m) (m_open m) (m_head m) (m_dead m) (S (m_nw m)) (m_paused m) (m_gone m)) else None
   | EEnd i =>
       match nth_error (m_rq m) i with
       | Some x => if is_open m i && m_head m && negb (m_dead m)
-                  then Some (mkMon (upd (m_rq m) i (mkM true (x_lost x) (x_ndef x) (x_pend x))) None false false 0 (m_paused m))
+                  then Some (mkMon (upd (m_rq m) i (mkM true (x_lost x) (x_ndef x) (x_pend x))) None false false 0
+                                   (m_paused m) (m_gone m))
                   else None
       | None => None
       end
+  | EGone => if m_gone m then None
+             else Some (mkMon (m_rq m) (m_open m) (m_head m) (m_dead m) (m_nw m) (m_paused m) true)
   | ELost i =>
       match nth_error (m_rq m) i with
-      | Some x => if is_open m i && negb (m_dead m)
+      | Some x => if is_open m i && negb (m_dead m) && m_gone m
                   then Some (mkMon (upd (m_rq m) i (mkM (x_fin x) true (x_ndef x) (x_pend x))) (m_open m) (m_head m) true
-                                   (m_nw m) (m_paused m))
+                                   (m_nw m) (m_paused m) (m_gone m))
                   else None
       | None => None
       end
   | ENotify i d =>
       match nth_error (m_rq m) i with
       | Some x => if Nat.eqb d (x_ndef x)
-                  then Some (mkMon (upd (m_rq m) i (mkM (x_fin x) (x_lost x) (S (x_ndef x)) (x_pend x ++ [d])))
-                                   (m_open m) (m_head m) (m_dead m) (m_nw m) (m_paused m))
+                  then Some (with_rq m (upd (m_rq m) i (mkM (x_fin x) (x_lost x) (S (x_ndef x)) (x_pend x ++ [d]))))
                   else None
       | None => None
       end
   | EFired i d ok =>
       match nth_error (m_rq m) i with
       | Some x => if existsb (Nat.eqb d) (x_pend x) && (if ok then x_fin x else x_lost x)
-                  then Some (mkMon (upd (m_rq m) i (mkM (x_fin x) (x_lost x) (x_ndef x) (remove_first d (x_pend x))))
-                                   (m_open m) (m_head m) (m_dead m) (m_nw m) (m_paused m))
+                  then Some (with_rq m (upd (m_rq m) i (mkM (x_fin x) (x_lost x) (x_ndef x) (remove_first d (x_pend x)))))
                   else None
       | None => None
       end
-  | ENetPause => Some (mkMon (m_rq m) (m_open m) (m_head m) (m_dead m) (m_nw m) true)
-  | ENetResume => Some (mkMon (m_rq m) (m_open m) (m_head m) (m_dead m) (m_nw m) false)
+  | ENetPause => Some (mkMon (m_rq m) (m_open m) (m_head m) (m_dead m) (m_nw m) true (m_gone m))
+  | ENetResume => Some (mkMon (m_rq m) (m_open m) (m_head m) (m_dead m) (m_nw m) false (m_gone m))
   | EProdPause _ | EProdResume _ | EClose | ERaise => Some m
   end.
 
@@ -360,5 +449,5 @@ Fixpoint mon_ops (m : mon) (logs : list (list ev)) : option mon :=
 
 (** Request.notifyFinish as it is at the pinned commit: the Deferred is queued whatever the state of the request *)
 Definition notify_unrepaired (i : nat) (r : rq) : rq * list ev :=
-  (mkRq (r_started r) (r_finished r) (r_disc r) (r_pending r ++ [r_ndef r]) (S (r_ndef r)) (r_nw r) (r_prod r),
+  (mkRq (r_started r) (r_finished r) (r_disc r) (r_pending r ++ [(r_ndef r, [])]) (S (r_ndef r)) (r_nw r) (r_prod r),
    [ENotify i (r_ndef r)]).
